@@ -675,6 +675,17 @@ class Structural:
     def np_fft(self, x, n=None, axis=-1):
         return self._dft(x, n, False, 'dft')
 
+    @reg('numpy.fft.rfft', 'scipy.fft.rfft')
+    def np_rfft(self, x, n=None, axis=-1):
+        """rfft(x, n) = fft(x, n)[: n//2 + 1] for a real record (numpy discards an imaginary part: not modelled)"""
+        xa = self.asarray(x)
+        if xa.dtype == 'complex':
+            raise EngineError('rfft of a complex array')
+        full = self._dft(x, n, False, 'dft')
+        nn = full.shape[0]
+        half = (nn // 2 + 1) if isinstance(nn, int) else T.sadd(T.sfloordiv(nn, 2), 1)
+        return self._gi(full, slice(0, half))
+
     @reg('numpy.fft.ifft')
     def np_ifft(self, x, n=None, axis=-1):
         x = self.asarray(x)
